@@ -1469,8 +1469,11 @@ class ApertureStats:
             warnings.simplefilter('ignore', RuntimeWarning)
             covar_det = np.linalg.det(covar)
 
-            # covariance should be positive semidefinite
-            idx = np.where(covar_det < 0)[0]
+            # covariance should be positive semidefinite; a determinant
+            # that is negative only within round-off of zero belongs to
+            # an "infinitely" thin source, which is handled below
+            scale = (0.5 * (covar[:, 0, 0] + covar[:, 1, 1]))**2
+            idx = np.where(covar_det < -1.0e-10 * scale)[0]
             covar[idx] = np.array([[np.nan, np.nan], [np.nan, np.nan]])
 
             idx = np.where(covar_det < delta2)[0]
